@@ -225,11 +225,16 @@ func c16env(u int) map[string]*types.StructType {
 	case 5: // recursion through function and array types
 		a.Fields = []types.Type{types.NewPointer(types.NewFunc(types.NewPointer(a), types.NewPointer(b))), types.NewArray(2, types.NewPointer(a))}
 		b.Opaque = true
+	case 6: // names that read as numbers: %"7" and %"007" are different identified structs
+		// (a numeric name is kept with its quotes in TypeName, see asm/type.go getTypeName)
+		a.TypeName, b.TypeName = `"7"`, `"007"`
+		a.Fields = []types.Type{types.I32}
+		b.Fields = []types.Type{types.I32}
 	}
 	return map[string]*types.StructType{"A": a, "B": b}
 }
 
-const c16universes = 6
+const c16universes = 7
 
 type c16case struct {
 	Universe int    `json:"universe"`
@@ -297,7 +302,7 @@ func runC16(c *fw.Check) {
 	for i, d := range ds {
 		canon[i] = d.canon()
 	}
-	c.Rule = fmt.Sprintf("type universe = all descriptors of constructor depth <=%d over {void,label,token,metadata,x86_mmx,i1,i8,i32,half,float,double, identified structs A,B} with pointers in 2 address spaces, fixed/scalable vectors of 2 lengths, arrays of 2 lengths, literal/packed structs and (variadic) function types of <=2 members; %d universes of bodies for A,B (opaque, plain, self-recursive, mutually recursive, same-body, recursion through function/array). For each universe two independent instance sets X,Y are built and Equal is evaluated on ALL ordered pairs X[i],Y[j] and X[i],X[j] against the descriptor identity (reflexive/symmetric/transitive follow from agreeing with an equivalence on all pairs); in the first universe also against instance sets whose non-struct types all carry the same type name, and pairwise different names (only structs are identified by name); each type is printed in a module, re-parsed, and the parsed type compared with ALL types; for every type of depth <=2, every node of its graph and every applicable in-place edit (width, kind, address space, length, scalability, packedness, variadicity, naming a literal struct, replacing an element type) the edited graph -- which has been compared before -- is compared with fresh instances of the edited and of the original type. distinct = ordered pairs.", depth, c16universes)
+	c.Rule = fmt.Sprintf("type universe = all descriptors of constructor depth <=%d over {void,label,token,metadata,x86_mmx,i1,i8,i32,half,float,double, identified structs A,B} with pointers in 2 address spaces, fixed/scalable vectors of 2 lengths, arrays of 2 lengths, literal/packed structs and (variadic) function types of <=2 members; %d universes of bodies for A,B (opaque, plain, self-recursive, mutually recursive, same-body, recursion through function/array, names that read as numbers). For each universe two independent instance sets X,Y are built and Equal is evaluated on ALL ordered pairs X[i],Y[j] and X[i],X[j] against the descriptor identity (reflexive/symmetric/transitive follow from agreeing with an equivalence on all pairs); in the first universe also against instance sets whose non-struct types all carry the same type name, and pairwise different names (only structs are identified by name); each type is printed in a module, re-parsed, and the parsed type compared with ALL types; for every type of depth <=2, every node of its graph and every applicable in-place edit (width, kind, address space, length, scalability, packedness, variadicity, naming a literal struct, replacing an element type) the edited graph -- which has been compared before -- is compared with fresh instances of the edited and of the original type. distinct = ordered pairs.", depth, c16universes)
 	c.Extra["types"] = n
 	for u := 0; u < c16universes; u++ {
 		envX, envY := c16env(u), c16env(u)
